@@ -463,3 +463,9 @@ def run(ctx, rep):
         c02.check_lookup_datatypes(ctx, RuleProxy(rep, 'C01.T', 'ambiguities-off::'))
     except Unsupported as u:
         rep.undecided('C01.T', 'ambiguities-off', '', str(u))
+    # C01.N (dates): tips of a time tree sit at the heights their sampling dates mean (C06.C rules)
+    from props import c06
+    try:
+        c06.check_date_conventions(ctx, RuleProxy(rep, 'C01.N', 'dates::'))
+    except Unsupported as u:
+        rep.undecided('C01.N', 'dates', '', str(u))
